@@ -33,6 +33,10 @@ func (fio *FileIO) Sync() error {
 }
 
 func (fio *FileIO) Close() error {
+	// 接口约定关闭之前进行持久化
+	if err := fio.fd.Sync(); err != nil {
+		return err
+	}
 	return fio.fd.Close()
 }
 
